@@ -10,6 +10,7 @@ from .. import lib, ref
 from ..ref import Graph
 
 LEVEL = "exploration"
+TECHNIQUE = "runtime monitoring: matplotlib artists read back after plot() (image array and the colours it is painted with, Line2D, Quiver) and compared with a block/strip/cell-centre reference model; replots of the same maze in different value modes; ASCII export compared with the maze's own drawing and the pixel oracle"
 RULE = ("MazePlot(maze)[.add_node_values][.add_true_path][.add_predicted_path].plot() for all three maze kinds (trees and cyclic, grid "
         "2..8 and oblong), unit_length in {3,4,5,9,14}, with/without node values (random, negative, constant), 0-3 predicted paths "
         "(valid, reversed, arbitrary cell lists): ax.images[0].get_array() must have size (r*ul+1)x(c*ul+1), every cell block must be "
